@@ -1202,6 +1202,10 @@ func runC12(c *Ctx) {
 	c.modeDecisionsRule("R14")
 	r.Rule("R16", "a mode character changes its own flag and nothing else, in the direction of the sign in force: every store to a boolean field of ChanMode / NickMode in the mode parsers stores the sign variable (never a constant), each such field is stored at one site only, and the sign starts out as 'remove' (letters before the first '+' or '-' clear, as in the model)")
 	c.modeFlagStoresRule("R16")
+	r.Rule("R17", "names are compared exactly, as in the model: every index of the tracker's nick and channel tables (lookup, insert, delete) is a string parameter, the name field of a tracked object, or a loop key of the table - never a value computed from a name (a case-folded key used for lookups but not for the delete leaves entries that can never be removed)")
+	c.rawKeysRule("R17")
+	r.Rule("R18", "a refused operation is the identity, as in the model: in every exported tracker method with a pointer result that can mutate, no return of nil is reachable from a mutation of tracker state (map update / delete on tracked storage, store to a tracked object, call of a mutating function of the package) - 'the client's own nick can never be deleted' includes that the refusal forgets none of its channels")
+	c.refusalInertRule("R18")
 	r.Rule("R15", "every operation returns: no value whose String / Error / Format method takes the tracker lock (the tracker itself) is handed to a logging or fmt call while that lock is held - a logger that formats its arguments would acquire the lock a second time on the same stack (shared with C14.R1: the mutex is never acquired while already held)")
 	c.formatterReacquireRule("R15", c.stateFuncs())
 	r.Rule("R13", "every name the server uses can be tracked: a method that creates a nick or a channel (NewNick, NewChannel) refuses only the empty name and a name the tracker already holds - every condition its nil returns depend on is an emptiness test of an argument or is computed from tracker state (no alphabet or format check: a legal nick such as one with a backtick would never be tracked)")
@@ -1524,6 +1528,10 @@ func runC13(c *Ctx) {
 	c.rawSenderRule("R10")
 	r.Rule("R7", "every name the server uses can be tracked: a method that creates a nick or a channel (NewNick, NewChannel) refuses only the empty name and a name the tracker already holds - every condition its nil returns depend on is an emptiness test of an argument or is computed from tracker state (no alphabet or format check: a legal nick such as one with a backtick would never be tracked) (shared with C12.R13)")
 	c.stateDecidedRule("", "R7")
+	r.Rule("R11", "user@host details and topics follow the latest reply: what NickInfo / Topic / ReNick store into a tracked nick or channel is the value given, on every successful path - never a value computed from the old attribute (shared with C12.R11); a WHO reply that corrects an ident or host learned from a JOIN line then takes effect")
+	c.setterRule("R11")
+	r.Rule("R12", "the channels' modes are all tracked: every boolean field of ChanMode, NickMode and ChanPrivs is written by the mode parsers, each at one site, with the sign in force (shared with C12.R16) - a mode character that falls through to 'unknown' leaves the tracked modes behind the server's")
+	c.modeFlagStoresRule("R12")
 
 	nCalls := c.effectsRule("R1", nil)
 	r.Floor("R1", "tracker effect call sites checked", nCalls, 13)
@@ -1624,6 +1632,7 @@ func runC13(c *Ctx) {
 			}
 		})
 	}
+	c.trackerInstalledFreshRule("R4")
 	r.Add("R4", "seed-tracker", posFn(c, est), "(*client.Conn).EnableStateTracking", "the tracker is created for the configured nick", okSeed, "NewTracker(cfg.Me.Nick)")
 
 	// ---- R5 (same construct as C07.R4)
@@ -2066,6 +2075,74 @@ func (c *Ctx) setterRule(rule string) {
 			}
 		}
 	}
+	// ... and what is stored IS the attribute given: every store to a string field of a tracked nick or channel
+	// (outside construction) stores a parameter of the enclosing function, and a helper that does so is handed a
+	// parameter of its caller - a value computed from the old attribute ("keep what we know when the new one is
+	// empty") makes the tracker disagree with the model, and with the server after a WHO reply
+	nAttr := 0
+	paramLike := func(v ssa.Value) bool {
+		switch t := v.(type) {
+		case *ssa.Parameter, *ssa.FreeVar:
+			return true
+		case *ssa.UnOp:
+			if t.Op == token.MUL {
+				switch a := t.X.(type) {
+				case *ssa.FreeVar:
+					return true
+				case *ssa.Alloc:
+					// a parameter spilled to a cell because a closure captures it
+					for _, ref := range *a.Referrers() {
+						if st, ok := ref.(*ssa.Store); ok && st.Addr == ssa.Value(a) {
+							if _, isP := st.Val.(*ssa.Parameter); !isP {
+								return false
+							}
+						}
+					}
+					return true
+				}
+			}
+		}
+		return false
+	}
+	for _, fn := range c.stateFuncs() {
+		funcInstrs(fn, func(in ssa.Instruction) {
+			s, ok := in.(*ssa.Store)
+			if !ok || !isStringType(s.Val.Type()) {
+				return
+			}
+			fv, base := fieldOf(s.Addr)
+			if fv == nil {
+				return
+			}
+			if _, isT := tracked[derefStruct(base.Type())]; !isT {
+				return
+			}
+			if c.allOriginsLocalAlloc(s.Addr, fn) {
+				return
+			}
+			nAttr++
+			okV := paramLike(s.Val)
+			why := "stores " + s.Val.String() + ", not the value given"
+			if p, isP := s.Val.(*ssa.Parameter); isP && okV && (fn.Object() == nil || !fn.Object().Exported()) && fn.Parent() == nil {
+				// helper: judged at its call sites
+				idx := -1
+				for i, q := range fn.Params {
+					if q == p {
+						idx = i
+					}
+				}
+				for _, cs := range c.staticCallers(fn) {
+					if idx >= 0 && idx < len(cs.Common().Args) && !paramLike(cs.Common().Args[idx]) {
+						if _, isK := cs.Common().Args[idx].(*ssa.Const); !isK {
+							okV, why = false, "helper is handed "+cs.Common().Args[idx].String()+" at "+c.InstrPos(cs)+", not the value given"
+						}
+					}
+				}
+			}
+			r.Add(rule, fmt.Sprintf("attr-is-given:%s:%s", c.FuncKey(fn), fv.Name()), c.InstrPos(s), c.FuncKey(fn), "the attribute stored is the one given", okV, why)
+		})
+	}
+	r.Floor(rule, "stores to string attributes of tracked nicks and channels", nAttr, 3)
 	// the same inside closures an exported method hands to a locked "update" helper: a captured parameter stored
 	// into a tracked object is stored on every path of the closure
 	for i := 0; i < ms.Len(); i++ {
@@ -2682,7 +2759,12 @@ func (c *Ctx) modeFlagStoresRule(rule string) {
 		}
 		frames = append(frames, fn.AnonFuncs...)
 		perField := map[*types.Var][]*ssa.Store{}
+		seenFrame := map[*ssa.Function]bool{}
 		for _, f := range frames {
+			if seenFrame[f] {
+				continue
+			}
+			seenFrame[f] = true
 			funcInstrs(f, func(in ssa.Instruction) {
 				st, ok := in.(*ssa.Store)
 				if !ok {
@@ -2734,6 +2816,38 @@ func (c *Ctx) modeFlagStoresRule(rule string) {
 				}
 			})
 		}
+		// every flag the snapshot type has is tracked: each boolean field of the mode structures this parser
+		// writes is addressed somewhere in the parser's frames (stored to, or handed out by a lookup helper)
+		addressed := map[*types.Var]bool{}
+		owners := map[*types.Named]bool{}
+		for _, f := range frames {
+			funcInstrs(f, func(in ssa.Instruction) {
+				fa, ok := in.(*ssa.FieldAddr)
+				if !ok {
+					return
+				}
+				fv, _ := fieldOf(fa)
+				pt, isP := fa.X.Type().Underlying().(*types.Pointer)
+				if fv == nil || !isP {
+					return
+				}
+				if nt, isN := pt.Elem().(*types.Named); isN && (nt.Obj().Name() == "ChanMode" || nt.Obj().Name() == "NickMode" || nt.Obj().Name() == "ChanPrivs") {
+					addressed[fv] = true
+					owners[nt] = true
+				}
+			})
+		}
+		for nt := range owners {
+			st, _ := nt.Underlying().(*types.Struct)
+			for i := 0; st != nil && i < st.NumFields(); i++ {
+				fv := st.Field(i)
+				if b, isB := fv.Type().Underlying().(*types.Basic); !isB || b.Kind() != types.Bool {
+					continue
+				}
+				nSt++
+				r.Add(rule, "flag-tracked:"+nt.Obj().Name()+"."+fv.Name(), c.Pos(fv.Pos()), c.FuncKey(fn), "every boolean mode of "+nt.Obj().Name()+" is written by the mode parser", addressed[fv], "no code of "+name+" (or its helpers) addresses "+fv.Name()+": the mode character that should switch it is ignored")
+			}
+		}
 		for fv, sts := range perField {
 			if len(sts) > 1 {
 				r.Add(rule, "flag-one-site:"+fv.Name(), c.InstrPos(sts[1]), c.FuncKey(sts[1].Parent()), "each mode flag is written at one site", false, fmt.Sprintf("%s is stored at %d sites", fv.Name(), len(sts)))
@@ -2778,4 +2892,162 @@ func (c *Ctx) lockedBody(fn *ssa.Function) *ssa.Function {
 		return inner
 	}
 	return fn
+}
+
+// rawKeysRule: the tracker's tables are keyed by names exactly as given: every
+// index of stateTracker.nicks / stateTracker.chans (lookup, update, delete) is
+// a string parameter of the enclosing function, the name field of a tracked
+// object (under which it was filed), or a loop key of the same table. A key
+// computed from a name (case folding, trimming) makes tables filed under one
+// spelling and looked up or deleted under another disagree - and the model
+// compares names exactly.
+func (c *Ctx) rawKeysRule(rule string) {
+	r := c.R
+	m := c.newTrackerModel()
+	if !r.Anchor(rule, "tracker tables", m.stNicks != nil && m.stChans != nil) {
+		return
+	}
+	nameField := func(v ssa.Value) bool {
+		fv, base := loadedField(v)
+		if fv == nil || !isStringType(fv.Type()) {
+			return false
+		}
+		if st := derefStruct(base.Type()); st != nil {
+			for _, n := range []string{"nick", "channel"} {
+				if nt := c.Named(c.State, n); nt != nil && nt.Underlying() == types.Type(st) {
+					return true
+				}
+			}
+		}
+		return false
+	}
+	n := 0
+	for _, fn := range m.funcs {
+		for _, op := range mapOps(fn) {
+			if (op.Field != m.stNicks && op.Field != m.stChans) || op.Key == nil {
+				continue
+			}
+			if c.allOriginsLocalAlloc(op.Base, fn) {
+				continue
+			}
+			n++
+			ok, why := true, "the name as given"
+			for _, o := range c.originsLocal(op.Key) {
+				switch t := o.(type) {
+				case *ssa.Parameter:
+				case *ssa.Extract:
+					if _, isNext := t.Tuple.(*ssa.Next); !isNext {
+						ok, why = false, "key is "+o.String()
+					}
+				default:
+					if !nameField(o) {
+						ok, why = false, "key is computed: "+o.String()
+					}
+				}
+			}
+			r.Add(rule, fmt.Sprintf("raw-key:%s:%s#%d", c.FuncKey(fn), op.Field.Name(), n), c.InstrPos(op.In), c.FuncKey(fn), "the tracker's tables are indexed by names exactly as given", ok, why)
+		}
+	}
+	r.Floor(rule, "keyed operations on the tracker's nick and channel tables", n, 10)
+}
+
+// refusalInertRule: C12.R18. An operation that reports failure has changed
+// nothing: in every exported tracker method with a pointer result, no return
+// of the nil constant is reachable from an instruction that mutates tracker
+// state (a map update or delete on tracked storage, a store to a field of a
+// tracked object, a call of a function of the package that does any of
+// these). In the model a refused operation - deleting the client's own nick,
+// a name that is not tracked, a name already in use - is the identity.
+func (c *Ctx) refusalInertRule(rule string) {
+	r := c.R
+	m := c.newTrackerModel()
+	tracked := func(t types.Type) bool {
+		if p, ok := t.Underlying().(*types.Pointer); ok {
+			t = p.Elem()
+		}
+		nt, ok := t.(*types.Named)
+		if !ok || nt.Obj().Pkg() == nil || nt.Obj().Pkg() != c.State.Pkg {
+			return false
+		}
+		switch nt.Obj().Name() {
+		case "stateTracker", "nick", "channel", "ChanMode", "NickMode", "ChanPrivs":
+			return true
+		}
+		return false
+	}
+	direct := func(fn *ssa.Function, in ssa.Instruction) bool {
+		switch t := in.(type) {
+		case *ssa.MapUpdate:
+			return !c.allOriginsLocalAlloc(t.Map, fn)
+		case *ssa.Store:
+			fa, ok := t.Addr.(*ssa.FieldAddr)
+			if !ok || !tracked(fa.X.Type()) {
+				return false
+			}
+			return !c.allOriginsLocalAlloc(fa, fn)
+		case *ssa.Call:
+			if b, ok := t.Call.Value.(*ssa.Builtin); ok && b.Name() == "delete" {
+				return !c.allOriginsLocalAlloc(t.Call.Args[0], fn)
+			}
+		}
+		return false
+	}
+	mut := map[*ssa.Function]bool{}
+	for changed := true; changed; {
+		changed = false
+		for _, fn := range m.funcs {
+			if mut[fn] {
+				continue
+			}
+			funcInstrs(fn, func(in ssa.Instruction) {
+				if mut[fn] {
+					return
+				}
+				if direct(fn, in) {
+					mut[fn] = true
+				} else if cs, ok := in.(ssa.CallInstruction); ok {
+					if cal := cs.Common().StaticCallee(); cal != nil && mut[cal] {
+						mut[fn] = true
+					}
+				}
+				if mut[fn] {
+					changed = true
+				}
+			})
+		}
+	}
+	n := 0
+	for _, fn := range m.funcs {
+		if fn.Object() == nil || !fn.Object().Exported() || fn.Signature.Recv() == nil || fn.Signature.Results().Len() == 0 || !mut[fn] {
+			continue
+		}
+		if _, isP := fn.Signature.Results().At(0).Type().Underlying().(*types.Pointer); !isP {
+			continue
+		}
+		k := 0
+		reach := map[ssa.Instruction]bool{}
+		funcInstrs(fn, func(in ssa.Instruction) {
+			isM := direct(fn, in)
+			if cs, ok := in.(*ssa.Call); ok && !isM {
+				if cal := cs.Call.StaticCallee(); cal != nil && mut[cal] {
+					isM = true
+				}
+			}
+			if isM && !reach[in] {
+				for x := range ReachFrom(in, true, nil) {
+					reach[x] = true
+				}
+			}
+		})
+		funcInstrs(fn, func(in ssa.Instruction) {
+			rt, ok := in.(*ssa.Return)
+			if !ok || len(rt.Results) == 0 || !isNilConst(retVal(rt, 0)) {
+				return
+			}
+			n++
+			k++
+			r.Add(rule, fmt.Sprintf("refusal-inert:%s#%d", c.FuncKey(fn), k), c.InstrPos(rt), c.FuncKey(fn), "an operation that answers nil has changed nothing", !reach[rt], "this nil return is reachable after a mutation of tracker state")
+		})
+	}
+	r.Floor(rule, "nil returns of mutating tracker operations", n, 10)
 }
